@@ -139,7 +139,11 @@ fn pick_params(rng: &mut Rng) -> (u64, u64, u64, u64, usize, u64) {
 }
 
 async fn submit_arm(out: &mut Out, rng: &mut Rng, mx: u64, n: usize, corpus: &[(u64, u64, Vec<R>)]) {
+    let mut hangs = 0;
     for ci in 0..n + corpus.len() {
+        if hangs >= 3 {
+            break; // each hang costs the 30 s timeout; three are reported, the rest of the arm is skipped
+        }
         let (mut flen, a, b, mut bs, io_par, buf) = pick_params(rng);
         let (rs, kind) = if ci < corpus.len() {
             flen = corpus[ci].0;
@@ -162,7 +166,10 @@ async fn submit_arm(out: &mut Out, rng: &mut Rng, mx: u64, n: usize, corpus: &[(
         out.count(&format!("submit:{kind}"));
         out.count(if in_class { "submit:in_class" } else { "submit:in_domain" });
         match &res {
-            Res::Hang => out.fail(None, "submit_request did not complete within 30 s", human.clone()),
+            Res::Hang => {
+                hangs += 1;
+                out.fail(None, "submit_request did not complete within 30 s", human.clone())
+            }
             _ if poison.is_some() => {
                 // with a failing read: an error, or the exact bytes (the read was not needed); never wrong bytes
                 if matches!(res, Res::Err) || exact(&o.data, &rs, &res) {
@@ -203,7 +210,11 @@ async fn submit_arm(out: &mut Out, rng: &mut Rng, mx: u64, n: usize, corpus: &[(
 }
 
 async fn encio_arm(out: &mut Out, rng: &mut Rng, mx: u64, n: usize) {
+    let mut hangs = 0;
     for _ in 0..n {
+        if hangs >= 3 {
+            break;
+        }
         let (flen, a, b, bs, io_par, buf) = pick_params(rng);
         let chunk = *rng.pick(&[1u64, 2, 3, 5, 8, 13, 40, 100, 1 << 23]);
         // LanceEncodingsIo is fed decoder requests: sorted, mostly disjoint, possibly long
@@ -239,7 +250,10 @@ async fn encio_arm(out: &mut Out, rng: &mut Rng, mx: u64, n: usize) {
         out.count(&format!("encio:{kind}"));
         out.count(if in_class { "encio:in_class" } else { "encio:in_domain" });
         match &res {
-            Res::Hang => out.fail(None, "LanceEncodingsIo::submit_request did not complete within 30 s", human.clone()),
+            Res::Hang => {
+                hangs += 1;
+                out.fail(None, "LanceEncodingsIo::submit_request did not complete within 30 s", human.clone())
+            }
             _ => {
                 if exact(&o.data, &rs, &res) {
                     out.ok()
@@ -251,6 +265,61 @@ async fn encio_arm(out: &mut Out, rng: &mut Rng, mx: u64, n: usize) {
         out.nontrivial.push(format!("e{flen},{a},{b},{bs},{mx},{chunk},{:?}", rs));
         if !matches!(res, Res::Hang) {
             out.case("encio", format!("(({}, {}, {}), ({}, {}, {}), {})", flen, a, b, bs, mx, chunk, coq_ranges(&rs)), res.coq(), human);
+        }
+    }
+}
+
+/// many concurrent in-domain requests on a multi-thread runtime with small budgets and mixed
+/// priorities; every future is driven by its own task (fair consumption); all must complete
+async fn stress_arm(out: &mut Out, rng: &mut Rng, mx: u64, n: usize) {
+    for _ in 0..n {
+        let flen = 4096u64;
+        let (a, b) = (*rng.pick(&[1u64, 7, 131]), rng.below(256));
+        let bs = *rng.pick(&[0u64, 2, 16, 64]);
+        let io_par = *rng.pick(&[1usize, 2, 4]);
+        let buf = *rng.pick(&[0u64, 1, 10, 100, 4000]);
+        let o = open(flen, a, b, bs, io_par, buf, None, None).await;
+        let m = rng.range(5, 40) as usize;
+        let mut handles = vec![];
+        let mut reqs = vec![];
+        for _ in 0..m {
+            let rs = loop {
+                let (rs, _) = gen_ranges(rng, flen, bs, mx);
+                if !known_request_shape(bs, mx, &rs) {
+                    break rs;
+                }
+            };
+            let prio = match rng.below(3) {
+                0 => 0,
+                1 => rng.below(4),
+                _ => rng.next(),
+            };
+            let file = if rng.bool() { o.file.clone() } else { o.file.with_priority(rng.below(3)) };
+            let req = to_range(&rs);
+            handles.push(tokio::spawn(async move { file.submit_request(req, prio).await }));
+            reqs.push(rs);
+        }
+        let deadline = tokio::time::Instant::now() + Duration::from_secs(60);
+        let mut problems = vec![];
+        for (j, h) in handles.into_iter().enumerate() {
+            match tokio::time::timeout_at(deadline, h).await {
+                Err(_) => problems.push(format!("request {j} did not complete within 60 s")),
+                Ok(Err(_)) => problems.push(format!("request {j} panicked")),
+                Ok(Ok(Err(_))) => problems.push(format!("request {j} failed")),
+                Ok(Ok(Ok(bufs))) => {
+                    if !exact(&o.data, &reqs[j], &Res::Ok(bufs)) {
+                        problems.push(format!("request {j} returned wrong bytes"));
+                    }
+                }
+            }
+        }
+        out.count("stress:runs");
+        let human = json!({"file": {"len": flen, "a": a, "b": b}, "block_size": bs, "max_iop": mx, "io_parallelism": io_par, "buffer": buf,
+            "requests": m, "problems": problems.iter().take(5).collect::<Vec<_>>(), "first_requests": reqs.iter().take(3).collect::<Vec<_>>()});
+        if problems.is_empty() {
+            out.ok()
+        } else {
+            out.fail(None, "concurrent in-domain requests: not all completed with the exact bytes", human)
         }
     }
 }
@@ -274,17 +343,28 @@ fn corpus() -> Vec<(u64, u64, Vec<R>)> {
 }
 
 pub fn run(args: &Args) -> i32 {
-    std::panic::set_hook(Box::new(|_| {}));
+    if std::env::var("VERIF_C30_DEBUG").is_err() {
+        std::panic::set_hook(Box::new(|_| {}));
+    }
     let mx = *lance_io::object_store::DEFAULT_MAX_IOP_SIZE;
     let widx: u64 = args.rest.iter().position(|x| x == "--widx").and_then(|i| args.rest.get(i + 1)).and_then(|x| x.parse().ok()).unwrap_or(0);
     let mut rng = Rng::new(args.seed.wrapping_mul(1_000_003).wrapping_add(widx));
     let rt = tokio::runtime::Builder::new_multi_thread().worker_threads(3).enable_all().build().unwrap();
     let mut out = Out::default();
-    let n_submit = args.vol(170, 1500);
-    let n_encio = args.vol(50, 400);
+    let n_submit = args.vol(170, 600);
+    let n_encio = args.vol(50, 200);
+    let n_stress = args.vol(4, 12);
+    let n_file = args.vol(6, 24);
+    let only_file = std::env::var("VERIF_C30_DEBUG").map(|v| v == "file").unwrap_or(false);
     rt.block_on(async {
+        if only_file {
+            crate::filearm::run(&mut out, &mut rng, mx, 40).await;
+            return;
+        }
         submit_arm(&mut out, &mut rng, mx, n_submit, &corpus()).await;
         encio_arm(&mut out, &mut rng, mx, n_encio).await;
+        stress_arm(&mut out, &mut rng, mx, n_stress).await;
+        crate::filearm::run(&mut out, &mut rng, mx, n_file).await;
     });
     drop(rt);
     queue::run(&mut out, &mut rng, mx, args);
